@@ -76,6 +76,10 @@ def cases(tier, seed):
                    'mask_mode': modes[i % len(modes)], 'fold': (i // 2) % 2 == 1,
                    'time_style': 'real' if i % 5 == 0 else 'binary', 'same': (i // 4) % 2 == 0,
                    'with_bn': (i // 8) % 4 != 3, 'seed': seed * 7717 + i})
+    # a layer invoked twice in two different width-sharing groups; pad modules per call site / shared
+    for i, c in enumerate(pitgen.special_cases(48 if tier == 'quick' else 960, seed, {'kind': 'random'})):
+        cs.append(dict(c, mask_mode=modes[i % len(modes)], fold=(i // 3) % 2 == 1,
+                       time_style='real' if i % 5 == 0 else 'binary'))
     # the repository's own unit_test models, channel masks only
     for i, name in enumerate(REPO_MODELS * (1 if tier == 'quick' else 8)):
         cs.append({'kind': 'repo-model', 'model': name, 'fold': i % 2 == 1,
@@ -271,7 +275,9 @@ def assign_time_masks(pit, rng, style):
 
 def run_random(case, ctx, gen_opts=None):
     rng = random.Random(case['prog_seed'])
-    if case['kind'] == 'reuse':
+    if case.get('special'):
+        prog = pitgen.special_program(rng, case['family'], case['special'], case.get('delay', 0))
+    elif case['kind'] == 'reuse':
         prog = pitgen.reuse_program(rng, case['family'], case['same'], case['with_bn'])
     else:
         prog = None
